@@ -37,6 +37,8 @@ def build(desc, pool=None):
         return emf.EvolvedMFWithBH(a.pop("IMF"), a.pop("nbins"), a.pop("FeH"), a.pop("tout"), a.pop("esc_rate"), a.pop("f_BH"), **a)
     if k == "from_IMF":
         return emf.InitialBHPopulation.from_IMF(a.pop("IMF"), a.pop("nbins"), a.pop("FeH"), **a)
+    if k == "from_BHMF":
+        return emf.InitialBHPopulation.from_BHMF(a.pop("m_breaks"), a.pop("a_slopes"), a.pop("nbins"), a.pop("FeH"), **a)
     raise ValueError(k)
 
 
